@@ -97,7 +97,15 @@ def run(ctx):
     rs = [c for c in sc.generate(ctx, "f_walk", [1], 2, ["I", "X", "Rrm"], "std", filt="clean") +
           sc.generate(ctx, "f_walkR", [2], 2, ["I", "X", "Rrm"], "std", filt="clean") if walk_case(c)]
     rs, _ = sc.slice_cases(rs, 16 if quick else 80, key="faultwalk")
-    base = base + rs
+    # the same object is changed again after a step that may have failed half-way (a transfer that downloaded but did not
+    # upload, then new content before the retry)
+    def same_object(c):
+        ops = [t[2] for t in c["tokens"] if t[0] == "U"]
+        return len(ops) == 2 and ops[0][1] == ops[1][1] and any(t[0] == "S" for t in c["tokens"][:-2]) \
+            and ops[0][0] in ("create", "write") and ops[1][0] in ("write", "delete", "rename")
+    so = [c for c in sc.generate(ctx, "f_same", [1], 2, ["IS"], "std") + sc.generate(ctx, "f_sameR", [2], 2, ["IS"], "std") if same_object(c)]
+    so, _ = sc.slice_cases(so, 12 if quick else 60, key="faultsame")
+    base = base + rs + so
     ctx.cov["exhaustive"] = False
     golden = sc.with_flavors([dict(c, tokens=[["F", NEVER, 4]] + c["tokens"]) for c in base], flavors)
     gtraces = sysfam.run_cases(ctx, golden)
